@@ -142,7 +142,7 @@ func vpH_C19_fault() {
 // of 1030 documents (two 1024-document doc-value chunks; long values in the
 // first, short ones in the second), one reader warmed on one chunk, the storage
 // starts failing at the k-th read (symbolic) of a visit in the other chunk, and
-// the reader is used again for every document of the chunk it had loaded:
+// the reader is used again for the chunk of the failed call and for every document of the chunk it had loaded:
 // each call returns an error or a result, none panics.
 func vpH_C19_bigdv() {
 	var docs []*vpDoc
@@ -183,7 +183,7 @@ func vpH_C19_bigdv() {
 		vpAssert(err != nil || got == 0, "failed storage read is reported or yields an empty result: VisitDocumentValues")
 	}
 	_ = mark
-	for _, n := range again {
+	for _, n := range append([]uint64{other, other + 1}, again...) {
 		// every later call returns (an error or a result): no panic, no hang
 		_, _ = visit(n)
 	}
